@@ -28,7 +28,13 @@ def jobs(tier, seed):
         for sc in scheds:
             js.append({"label": f"{spec[0]}{spec[1]}|{sc}|single", "wl": spec, "schedule": sc, "pairs": False})
     if tier == "thorough":
+        # every pair of successive crashes (the second one inside the recovery / drain of the first): quadratic in the
+        # number of commits, so on the workloads up to ~60 commits; the two largest (synthetic, diamond_multitask ...)
+        # take 10 minutes each and are left to the single-crash jobs
+        heavy = {"synthetic", "diamond_multitask", "fan3", "jump_side_fanin", "quorum", "multi_merge", "first_of"}
         for spec in WLS + RACY:
+            if spec[0] in heavy:
+                continue
             js.append({"label": f"{spec[0]}{spec[1]}|fifo|pairs", "wl": spec, "schedule": "fifo", "pairs": True})
     return js
 
